@@ -64,10 +64,12 @@ impl Task for EpollJob {
 
         // close the connection
         let reaper = Arc::clone(&handle.reaper);
-        #[cfg(khttp_verif)]
-        crate::verif::emit(format!("WD{}:{:x}", vw, vh));
         unsafe {
             let _ = epoll_ctl(handle.epfd, EPOLL_CTL_DEL, handle.fd, ptr::null_mut());
+            // (logged AFTER the syscall: a batch logged later that still contains this connection was
+            // harvested before the DEL)
+            #[cfg(khttp_verif)]
+            crate::verif::emit(format!("WD{}:{:x}", vw, vh));
             #[cfg(khttp_verif)]
             crate::verif::emit(format!("WS{}:{:x}", vw, vh));
             let stream = *Box::from_raw(handle.stream_ptr);
